@@ -77,6 +77,14 @@ func (b *backend) ServeHTTP(w http.ResponseWriter, r *http.Request) {
 	}
 	defer leave()
 	io.Copy(io.Discard, r.Body) // lets net/http watch the connection, so that a client cancel reaches r.Context()
+	if mode == "abort-on-0" {
+		// the first backend of the pool fails at once, every other one holds
+		if b.idx == 0 {
+			mode = "abort-now"
+		} else {
+			mode = "ok"
+		}
+	}
 	if mode != "abort-now" {
 		g := b.gate.Load().(chan struct{})
 		select {
@@ -251,8 +259,8 @@ func run(c *lib.Ctx) {
 	for i := 0; i < nb; i++ {
 		st := settings[perm[i%len(perm)]]
 		st.Delay = i%4 != 3
-		if i%7 == 6 {
-			st.TryDuration = "60ms"
+		if i%3 == 2 {
+			st.TryDuration = "60ms" // retries: a failed attempt, then the same request on another (or the same) host
 		}
 		if st.FailTimeout == "2s" && i%5 != 0 {
 			st.FailTimeout = "200ms" // keep the expensive exact-expiry setting to a fifth of its share
@@ -265,6 +273,7 @@ func run(c *lib.Ctx) {
 		}
 	}
 	downness(c, bks, rng)
+	retryAccounting(c, bks)
 	socketBurst(c, bks)
 	c.Count("hook_points_hit", atomic.LoadInt64(&hookHits))
 	c.Floor("quiescent_checks", 100)
@@ -646,6 +655,77 @@ func downness(c *lib.Ctx, bks []*backend, rng *lib.Rng) {
 			c.Count("recovery_checks", 1)
 		}
 		c.Nontrivial(fmt.Sprintf("downness/%d/%d", mf, r))
+		u.up.Stop()
+	}
+}
+
+// retryAccounting: a request whose first attempt fails and which is then being
+// served by another backend counts against that other backend only; the
+// backend whose attempt is over must not stay counted for as long as the
+// request lives.
+func retryAccounting(c *lib.Ctx, bks []*backend) {
+	atomic.StoreInt32(&delayOn, 0)
+	rounds := c.Pick(10, 100)
+	for r := 0; r < rounds; r++ {
+		gate := make(chan struct{})
+		for _, b := range bks {
+			b.gate.Store(gate)
+		}
+		st := setting{Hosts: 2 + r%2, Policy: "first", MaxConns: []int{0, 1, 3}[r%3], MaxFails: 5, FailTimeout: "1s", TryDuration: "5s", N: 1 + r%3}
+		c.Journal("C14 retry accounting %s", lib.JSON(st))
+		u, err := mk(st, bks)
+		if err != nil {
+			c.Violation("harness/upstream", err.Error(), st)
+			return
+		}
+		var returned int64
+		for i := 0; i < st.N; i++ {
+			go func(i int) {
+				defer atomic.AddInt64(&returned, 1)
+				req := httptest.NewRequest("GET", "/retry", nil)
+				req.Header.Set("X-Mode", "abort-on-0")
+				req.Header.Set("X-Rid", fmt.Sprintf("ra%d-%d", r, i))
+				u.p.ServeHTTP(httptest.NewRecorder(), req)
+			}(i)
+		}
+		// every request fails on host 0 and is then parked in another backend
+		// (or, if those are full, keeps retrying)
+		capacity := int64(st.N)
+		if st.MaxConns > 0 && int64(st.MaxConns*(st.Hosts-1)) < capacity {
+			capacity = int64(st.MaxConns * (st.Hosts - 1))
+		}
+		parked := func() int64 {
+			var n int64
+			for i := 1; i < st.Hosts; i++ {
+				n += atomic.LoadInt64(&bks[i].inflight)
+			}
+			return n
+		}
+		ok := waitUntil(func() bool { return parked() == capacity && atomic.LoadInt64(&bks[0].inflight) == 0 }, 20*time.Second)
+		c.Eval(1)
+		if ok {
+			time.Sleep(2 * time.Millisecond)
+			c.Count("retry_accounting_checks", 1)
+			c.Nontrivial(fmt.Sprintf("retry/%d/%d/%d", st.Hosts, st.MaxConns, st.N))
+			if cn := conns(u.hosts[0]); cn != 0 && int64(st.N) == capacity {
+				c.Violation("C14/conns-kept-after-failed-attempt", fmt.Sprintf("host 0 still has an in-flight count of %d although every attempt on it has failed and the %d requests are being forwarded to other backends", cn, st.N),
+					map[string]interface{}{"setting": st, "host0_conns": cn, "host1_conns": conns(u.hosts[1]), "parked_in_other_backends": parked()})
+			}
+			for i := 1; i < st.Hosts; i++ {
+				if cn, in := conns(u.hosts[i]), atomic.LoadInt64(&bks[i].inflight); cn != in && int64(st.N) == capacity {
+					c.Violation("C14/conns-disagrees-with-forwards", fmt.Sprintf("retry: host %d in-flight count %d but %d requests are being forwarded to it", i, cn, in), map[string]interface{}{"setting": st})
+				}
+			}
+		} else {
+			c.Inconclusive(fmt.Sprintf("retry accounting round %d: requests did not settle in the other backends", r))
+		}
+		close(gate)
+		waitUntil(func() bool { return atomic.LoadInt64(&returned) == int64(st.N) }, 30*time.Second)
+		for i := 0; i < st.Hosts; i++ {
+			if cn := conns(u.hosts[i]); cn != 0 {
+				c.Violation("C14/conns-not-zero-after-traffic", fmt.Sprintf("retry: host %d in-flight count %d after all requests returned", i, cn), map[string]interface{}{"setting": st})
+			}
+		}
 		u.up.Stop()
 	}
 }
